@@ -61,6 +61,38 @@ def gpsd_leftover_case(res):
                           GPSD_FINDING if backend == 'gpsd' else 'C06|late-truncated|' + backend)
 
 
+def busy_line_cases(res, seed, n):
+    """A busy serial line: 9..12 KiB of other traffic (sentences, other UBX frames; one byte per read) arrive before the
+    correct and timely answer to the first transmission. Compared with the line model; oracle: answer after one send."""
+    from .. import reflect as R
+    from ..common import Case
+    rng = C.rng_for(seed, 'C06-busy')
+    kt = R.key_tables()
+    sk = ','.join(str(k) for k in kt['signed']) or '-'
+    reqs = [r for r in S.all_requests(rng, R.message_table(), kt) if r.label in ('UbxMonVerPoll', 'UbxCfgRate', 'UbxCfgNav5Poll')]
+    out = []
+    proj = RC.proj_for('C06')
+    for _ in range(n):
+        rq = rng.choice(reqs)
+        frames, _i = S.good_answer(rng, rq, kt, 'ack')
+        filler = b''
+        while len(filler) < rng.choice([9000, 12000]):
+            filler += rng.choice([G.nmea(b'GPGSV,3,1,12,01,40,083,46,02,17,308,41'), G.nmea(b'GNRMC,1'), G.frame(1, 7, bytes(92)), G.frame(1, 0x35, bytes(rng.randrange(8, 200)))])
+        data = filler + b''.join(frames)
+        evs = [(data[k:k + 1], 1 if k % 12 == 0 else 0) for k in range(len(data))]          # about 12 bytes per ms
+        sc = {'retries': 1, 'delay': 1800, 'reqs': [rq], 'plan': [('good', 1, False)], 'plans': [[('good', 1, False)]],
+              'script': {'pending': [], 'attempts': [(True, evs)], 'idle': 100}, 'backend': 'tty', 'bauds': (115200, None)}
+        res_ = S.run_scenario(sc)
+        r = S.parse_result(res_)
+        desc = S.describe(sc)
+        desc['script'] = f'{len(filler)} bytes of other traffic, then the answer; one byte per read'
+        if r['ret'] in ('ret=None', 'hang') or r['ret'].startswith('exn=') or len(r['tx']) != 1:
+            res.violation('C06: the correct and timely answer behind a lot of other traffic was not returned after one send',
+                          {'property': 'C06', 'input': desc, 'implementation_says': res_[:300] + ' ... ' + res_[-200:]}, 'C06|busy-line')
+        out.append(Case('request-busy-line', S.model_cmd(sc, sk), proj(res_), desc, domain=False, kind='busy-line', proj=proj))
+    return out
+
+
 def check(tier, seed):
     res = C.Result('C06', tier, seed)
     res.rule = ('scenarios where the k-th transmission (k in 1..retries+1, retries 0..10) is answered correctly and in time (response, +ACK for CFG '
@@ -75,6 +107,7 @@ def check(tier, seed):
         res.assumption_lines = a0_ + res.assumption_lines
         cases = RC.run_suite(res, 'C06', tier, seed, 400, 15000, n_req=[1, 1, 1, 2, 3], force='good', oracle=oracle, late_every=10, history_every=6)
         gpsd_leftover_case(res)
+        cases += busy_line_cases(res, seed, 2 if tier == 'quick' else 12)
         res.compare(cases)
         res.notes['answered'] = sum(1 for c in cases if 'ret=Ubx' in c.impl)
         res.oblige('correspondence request loop: answer and sends (Tie A)', not res.disagreements)
